@@ -44,6 +44,9 @@ ENGINE = {'name': 'throttle',
                  'C17_throttle_bound(_total)_every_schedule drop the assumption and bound the excess by rate x (sum of the backward jumps of the '
                  'reservation instants), which is what rate.go re-credits when a goroutine that read the clock earlier takes the mutex later '
                  '(C17_back_jump_excess: the term is necessary); the real-time check allows 20 ms for this',
+                 'the total limiter is one shared object whose reservation (reserveN under its mutex) is atomic: the model interleaves whole reservations of '
+                 'different connections, never parts of one; the engine checks this on the real code with 300 rounds of 12 connections released together '
+                 'against a bucket that holds exactly one batch',
                  'Reads on one connection are sequential (the per-connection limiter sees them in order); connections interleave arbitrarily',
                  'the limit is finite (limit == rate.Inf, i.e. math.MaxFloat64 bytes per second, disables the bucket by design)',
                  'a Read whose wait is InfDuration (rate 0 with an exhausted burst) is treated as never returning']}
